@@ -33,3 +33,77 @@ def freq(fn, cnt):
 freq("lesser_frequency", "count_lt")
 freq("equal_frequency", "count_eq")
 freq("greater_frequency", "count_gt")
+
+
+# ---- lowest / highest position: 1-based index of the first minimum / maximum of the cell's layer values, NaN if any is NaN
+def position(fn, le, lt):
+    first = ("(all(iter_list[q, j] %s iter_list[q, r] for j in range(0, nl)) and all(iter_list[q, j] %s iter_list[q, r] for j in range(0, r)))"
+             % (le, lt))
+    Contract(
+        M, fn + "@cells", {"iter_list": "f2", "out": "Lf"},
+        lets=[("n", "iter_list.shape[0]"), ("nl", "iter_list.shape[1]")],
+        requires=["out.shape[0] == 0", "nl >= 1"],
+        modifies=("out",),
+        result="f1",
+        ensures=["result.shape[0] == n",
+                 "all(isnan(result[q]) == row_has_nan(iter_list, q, nl) for q in range(0, n))",
+                 # for a NaN-free cell: result - 1 is an index r whose value is extreme and strictly better than everything before it
+                 "all(row_has_nan(iter_list, q, nl) or any(result[q] == r + 1 and %s for r in range(0, nl)) for q in range(0, n))" % first],
+        loops={0: LoopSpec("for", index="k", inv=[
+            "out.shape[0] == k",
+            "all(isnan(out[q]) == row_has_nan(iter_list, q, nl) for q in range(0, k))",
+            "all(row_has_nan(iter_list, q, nl) or any(out[q] == r + 1 and %s for r in range(0, nl)) for q in range(0, k))" % first,
+        ])},
+        options={"fragment": ("toplevel_for", -1)},
+        props=("C17",),
+        native={"skip": True},
+    )
+
+
+position("lowest_position", ">=", ">")
+position("highest_position", "<=", "<")
+
+
+# ---- cell_stats: the statistic selected from the (separately checked) table `funcs`, applied to the cell's own layer values
+Contract(
+    M, "cell_stats@cells", {"iter_list": "f2", "out": "Lf", "funcs": "dict", "func": "str:sum"},
+    lets=[("n", "iter_list.shape[0]")],
+    requires=["out.shape[0] == 0"],
+    modifies=("out",),
+    result="f1",
+    ensures=["result.shape[0] == n", "all(same(result[q], funcs[func](iter_list[q])) for q in range(0, n))"],
+    loops={0: LoopSpec("for", index="k", inv=["out.shape[0] == k", "all(same(out[q], funcs[func](iter_list[q])) for q in range(0, k))"])},
+    options={"fragment": ("toplevel_for", -1)},
+    props=("C17",),
+    native={"skip": True},
+    notes="funcs[func] is an uninterpreted function of the row (the table itself is a table_check item)",
+)
+
+
+# ---- rank: the ref-th smallest layer value.  Proved here: NaN exactly for a cell with a NaN layer or ref beyond the layer count;
+# otherwise the result is one of the cell's own layer values, the minimum for ref == 1 and the maximum for ref == number of layers
+# (the sort is an assumed contract without multiplicities, so "exactly ref-1 values are smaller" stays with the bounded stand-in)
+_ROW = "old(iter_list[q, j])"
+Contract(
+    M, "rank@cells", {"ref_list": "i1", "iter_list": "f2", "out": "Lf"},
+    lets=[("n", "iter_list.shape[0]"), ("nl", "iter_list.shape[1]")],
+    requires=["ref_list.shape[0] == n", "out.shape[0] == 0", "nl >= 1", "all(ref_list[q] >= 1 for q in range(0, n))"],
+    modifies=("out", "iter_list"),
+    result="f1",
+    ensures=["result.shape[0] == n",
+             "all(isnan(result[q]) == (row_has_nan(iter_list, q, nl) or ref_list[q] > nl) for q in range(0, n))",
+             "all(isnan(result[q]) or any(result[q] == iter_list[q, j] for j in range(0, nl)) for q in range(0, n))",
+             "all(isnan(result[q]) or ref_list[q] != 1 or all(result[q] <= iter_list[q, j] for j in range(0, nl)) for q in range(0, n))",
+             "all(isnan(result[q]) or ref_list[q] != nl or all(result[q] >= iter_list[q, j] for j in range(0, nl)) for q in range(0, n))"],
+    loops={0: LoopSpec("for", index="k", inv=[
+        "out.shape[0] == k",
+        "all(isnan(out[q]) == (row_has_nan(iter_list, q, nl) or ref_list[q] > nl) for q in range(0, k))",
+        "all(isnan(out[q]) or any(out[q] == iter_list[q, j] for j in range(0, nl)) for q in range(0, k))",
+        "all(isnan(out[q]) or ref_list[q] != 1 or all(out[q] <= iter_list[q, j] for j in range(0, nl)) for q in range(0, k))",
+        "all(isnan(out[q]) or ref_list[q] != nl or all(out[q] >= iter_list[q, j] for j in range(0, nl)) for q in range(0, k))",
+    ])},
+    options={"fragment": ("toplevel_for", -1)},
+    props=("C17",),
+    native={"skip": True},
+    notes="the in-place sort acts on the row object; the fragment models it on a copy of the row (iter_list is not read afterwards)",
+)
